@@ -352,6 +352,7 @@ def _pack_case(seed):
     w = W.World(seed=seed, pack_limits=(4, 0.8))
     try:
         w.session("P")
+        w.cmd("P", "p STATUS inbox (MESSAGES)")      # the server registers INBOX at its first activation (DESIGN 10.5)
         box = rng.choice(["inbox", "work"])
         w.cmd("P", "p CREATE work")
         total = rng.randint(7, 12)
